@@ -5,6 +5,7 @@ import itertools
 import json
 import os
 import re
+import shutil
 import subprocess
 import tempfile
 
@@ -20,14 +21,14 @@ ALPHABET = {
     "fmg": [0, 1], "fmg_it": [0, 1, 2, 3], "fmg_cycle": [0, 1, 2], "extr": [0, 1, 2, 3], "maxlev": [-1, 1, 2, 3, 10], "pre": [0, 1, 2],
     "post": [0, 1, 2], "cycle": [0, 1, 2], "maxit": [0, 1, 2, 150], "norm": [0, 1, 2], "abstol": [-1.0, 0.0, 1e-8, 1e-3],
     "reltol": [-1.0, 0.0, 1e-8, 1e-3], "threads": [1, 2, 4, 16], "tfactor": [1.0, 0.5, 0.1], "strat": [0, 1], "cc": [0, 1], "cg": [0, 1],
-    "exact": [0, 1], "verbose": [0, 1, 2], "ajump": [0.0, 0.858], "problem": ["g0p0a1b0", "g1p2a2b1", "g2p1a3b0", "g3p2a3b1", "g2p3a3b1", "g0p2a0b0"],
+    "exact": [0, 1], "verbose": [0, 1, 2], "paraview": [0, 1], "ajump": [0.0, 0.858], "problem": ["g0p0a1b0", "g1p2a2b1", "g2p1a3b0", "g3p2a3b1", "g2p3a3b1", "g0p2a0b0"],
 }
 PAIRS = [dict(abstol=-1.0, reltol=-1.0), dict(abstol=-1.0, reltol=-1.0, maxit=3), dict(strat=0, cc=0, cg=0), dict(strat=0, cc=0), dict(strat=0, cg=0),
          dict(pre=0, post=0), dict(maxit=0, exact=1), dict(maxit=0, fmg=1), dict(aniso=2, ajump=0.0), dict(aniso=1, ajump=0.858),
          dict(maxlev=2, fmg=1, extr=1), dict(nr_exp=3, ntheta_exp=3), dict(nr_exp=3, ntheta_exp=3, extr=1, fmg=1), dict(nr_exp=2, ntheta_exp=3),
          dict(nr_exp=3, ntheta_exp=2), dict(abstol=-1.0, reltol=-1.0, maxit=0), dict(threads=16, tfactor=0.1), dict(maxit=1, exact=1),
          dict(abstol=-1.0, reltol=-1.0, extr=3, maxit=5), dict(verbose=1, extr=3), dict(verbose=2, maxit=0), dict(verbose=1, exact=0),
-         dict(verbose=2, fmg=1, extr=1), dict(verbose=1, abstol=-1.0, reltol=-1.0)]
+         dict(verbose=2, fmg=1, extr=1), dict(verbose=1, abstol=-1.0, reltol=-1.0), dict(paraview=1, exact=0), dict(paraview=1, maxit=0), dict(paraview=1, maxlev=2, fmg=1)]
 BASES = [
     dict(nr_exp=4, ntheta_exp=-1),
     dict(nr_exp=3, ntheta_exp=3, strat=1, extr=1, fmg=1, fmg_it=1, problem="g1p2a2b1"),
@@ -38,7 +39,7 @@ CLI_NAMES = {"nr_exp": "nr_exp", "ntheta_exp": "ntheta_exp", "aniso": "anisotrop
              "pre": "preSmoothingSteps", "post": "postSmoothingSteps", "cycle": "multigridCycle", "maxit": "maxIterations", "norm": "residualNormType",
              "abstol": "absoluteTolerance", "reltol": "relativeTolerance", "threads": "maxOpenMPThreads", "tfactor": "threadReductionFactor",
              "strat": "stencilDistributionMethod", "cc": "cacheDensityProfileCoefficients", "cg": "cacheDomainGeometry", "ajump": "alpha_jump",
-             "verbose": "verbose", "geom": "geometry", "prob": "problem", "alpha": "alpha_coeff", "beta": "beta_coeff", "kappa": "kappa_eps", "delta": "delta_e", "Rmax": "Rmax"}
+             "verbose": "verbose", "paraview": "paraview", "geom": "geometry", "prob": "problem", "alpha": "alpha_coeff", "beta": "beta_coeff", "kappa": "kappa_eps", "delta": "delta_e", "Rmax": "Rmax"}
 CLI_INVALID = [("extrapolation", "7"), ("extrapolation", "-1"), ("FMG_cycle", "3"), ("multigridCycle", "5"), ("residualNormType", "3"),
                ("stencilDistributionMethod", "2"), ("geometry", "4"), ("problem", "9"), ("alpha_coeff", "4"), ("beta_coeff", "2"),
                ("DirBC_Interior", "2"), ("FMG", "3"), ("nr_exp", "abc"), ("maxIterations", ""), ("bogusOption", "1"), ("write_grid_file", "2")]
@@ -130,14 +131,18 @@ def cli_args(cfg):
     for k, v in cfg.items():
         if k in CLI_NAMES:
             args += ["--" + CLI_NAMES[k], repr(v) if isinstance(v, float) else str(v)]
-    return args + ([] if "verbose" in cfg else ["--verbose", "0"]) + ["--paraview", "0"]
+    return args + ([] if "verbose" in cfg else ["--verbose", "0"]) + ([] if "paraview" in cfg else ["--paraview", "0"])
 
 
 def run_cli(exe, args, timeout=600):
     env = dict(os.environ)
     env.update(common.SAN_ENV)
     try:
-        p = subprocess.run([exe] + args, stdout=subprocess.PIPE, stderr=subprocess.PIPE, text=True, env=env, timeout=timeout, cwd=common.BUILD)
+        wd = tempfile.mkdtemp(prefix="cli", dir=common.BUILD)   # paraview output goes to the working directory
+        try:
+            p = subprocess.run([exe] + args, stdout=subprocess.PIPE, stderr=subprocess.PIPE, text=True, env=env, timeout=timeout, cwd=wd)
+        finally:
+            shutil.rmtree(wd, ignore_errors=True)
         return p.returncode, p.stdout, p.stderr
     except subprocess.TimeoutExpired:
         return -999, "", "timeout"
